@@ -320,7 +320,17 @@ class Runtime:
         return None
 
     def _make_exc(self, f, what):
-        cls = EXC_TYPES[f.get("exc", "E1")]
+        name = f.get("exc", "E1")
+        if name in ("CallError", "NodeError"):
+            # what a call that runs a nested uberjob.run raises when the inner plan fails
+            import uberjob
+            from uberjob._errors import NodeError
+
+            inner = uberjob.Plan().call(len, [])
+            e = uberjob.CallError(inner) if name == "CallError" else NodeError(inner)
+            e.__cause__ = core.E1(f"inner failure of {what}")
+            return e
+        cls = EXC_TYPES[name]
         e = cls(f"injected {what}")
         return e
 
